@@ -317,6 +317,8 @@ macro_rules! verif_harness {
         #[kani::stub($crate::__verif_common::stubs_active, $crate::__verif_common::stubs_active_on)]
         #[kani::stub(alloc::fmt::format, $crate::__verif_common::fmt_format_stub)]
         #[kani::stub(std::backtrace::Backtrace::capture, $crate::__verif_common::backtrace_capture_stub)]
+        #[kani::stub(core::slice::memchr::memchr_aligned, $crate::__verif_common::memchr_aligned_stub)]
+        #[kani::stub(core::slice::memchr::memrchr, $crate::__verif_common::memrchr_stub)]
         $(#[$m])*
         fn $name() $body
     };
@@ -329,7 +331,48 @@ macro_rules! verif_harness_realfmt {
     ($(#[$m:meta])* fn $name:ident() $body:block) => {
         #[kani::proof]
         #[kani::stub($crate::__verif_common::stubs_active, $crate::__verif_common::stubs_active_on)]
+        #[kani::stub(core::slice::memchr::memchr_aligned, $crate::__verif_common::memchr_aligned_stub)]
+        #[kani::stub(core::slice::memchr::memrchr, $crate::__verif_common::memrchr_stub)]
         $(#[$m])*
         fn $name() $body
+    };
+}
+
+
+/// Reference implementation of `core::slice::memchr::memchr_aligned` (same contract: index of the first
+/// byte equal to `x`). The library version first aligns the pointer and then scans word-wise; CBMC
+/// treats object addresses as symbolic, so the alignment arithmetic explodes as soon as the slice
+/// length is not a compile-time constant (measured: `Path::from_str("m/")` did not finish in 5 min).
+pub fn memchr_aligned_stub(x: u8, text: &[u8]) -> Option<usize> {
+    let mut i = 0;
+    while i < text.len() {
+        if text[i] == x {
+            return Some(i);
+        }
+        i += 1;
+    }
+    None
+}
+
+/// Reference implementation of `core::slice::memchr::memrchr` (index of the last byte equal to `x`).
+pub fn memrchr_stub(x: u8, text: &[u8]) -> Option<usize> {
+    let mut i = text.len();
+    while i > 0 {
+        i -= 1;
+        if text[i] == x {
+            return Some(i);
+        }
+    }
+    None
+}
+
+/// `verif_harness!` plus the memchr stub, for code under test that searches strings with a `char` pattern.
+#[macro_export]
+macro_rules! verif_harness_memchr {
+    ($(#[$m:meta])* fn $name:ident() $body:block) => {
+        $crate::verif_harness! {
+            $(#[$m])*
+            fn $name() $body
+        }
     };
 }
